@@ -496,14 +496,129 @@ def mk_log(t):
     return l
 
 
+def _free_consts(e, acc=None, seen=None):
+    acc = {} if acc is None else acc
+    seen = set() if seen is None else seen
+    if e.get_id() in seen:
+        return acc
+    seen.add(e.get_id())
+    if z3.is_const(e) and e.decl().kind() == z3.Z3_OP_UNINTERPRETED:
+        acc[e.get_id()] = e
+    for c in e.children():
+        _free_consts(c, acc, seen)
+    return acc
+
+
+def _poly_identical(a, b):
+    """a == b as polynomials / rational functions with constant denominators (sum-of-monomials normal form); False when not shown"""
+    try:
+        return z3.is_true(z3.simplify(a - b == 0, som=True, som_blowup=100000))
+    except z3.Z3Exception:
+        return False
+
+
+def _const_ratio(a, b):
+    """positive rational k with a == k*b as polynomials, or None (guess k at a pseudo-random rational point, confirm symbolically)"""
+    vs = list(_free_consts(a).values())
+    if not vs:
+        return None
+    pt = [(v, z3.RealVal(Fraction(3 + 7 * i, 5 + 2 * i)) if z3.is_real(v) else z3.IntVal(3 + i)) for i, v in enumerate(vs)]
+    try:
+        av, bv = z3.simplify(z3.substitute(a, *pt)), z3.simplify(z3.substitute(b, *pt))
+    except z3.Z3Exception:
+        return None
+    if not (z3.is_rational_value(av) and z3.is_rational_value(bv)):
+        return None
+    fa, fb = Fraction(av.numerator_as_long(), av.denominator_as_long()), Fraction(bv.numerator_as_long(), bv.denominator_as_long())
+    if fb == 0 or fa == 0 or fa / fb <= 0:
+        return None
+    k = fa / fb
+    return k if _poly_identical(a, rv(k) * b) else None
+
+
+def _const_sqrt(k):
+    """sqrt of a positive rational as a term: exact when k is a rational square, otherwise a (memoised) constant root"""
+    num, den = math.isqrt(k.numerator), math.isqrt(k.denominator)
+    if num * num == k.numerator and den * den == k.denominator:
+        return rv(Fraction(num, den))
+    return mk_sqrt(rv(k))
+
+
+def _obviously_nonneg(e, depth=0):
+    """syntactic sufficient condition for e >= 0 (sums / products of squares and non-negative constants)"""
+    if depth > 40:
+        return False
+    if z3.is_rational_value(e):
+        return e.numerator_as_long() >= 0
+    k = e.decl().kind()
+    ch = e.children()
+    if k == z3.Z3_OP_ADD:
+        return all(_obviously_nonneg(c, depth + 1) for c in ch)
+    if k == z3.Z3_OP_MUL:
+        rest = list(ch)
+        # pair up identical factors (squares); what is left must be non-negative on its own
+        i = 0
+        while i < len(rest):
+            j = next((j for j in range(i + 1, len(rest)) if z3.eq(rest[i], rest[j])), None)
+            if j is not None:
+                del rest[j]
+                del rest[i]
+            else:
+                i += 1
+        return all(_obviously_nonneg(c, depth + 1) for c in rest)
+    if k == z3.Z3_OP_POWER and z3.is_rational_value(ch[1]) and ch[1].denominator_as_long() == 1 and ch[1].numerator_as_long() % 2 == 0:
+        return True
+    if k == z3.Z3_OP_DIV and z3.is_rational_value(ch[1]) and ch[1].numerator_as_long() > 0:
+        return _obviously_nonneg(ch[0], depth + 1)
+    return False
+
+
 def mk_sqrt(t):
     t = z3.simplify(t)
     for (u, s) in ST.sqrts:
         if z3.eq(u, t):
             return s
+    known = list(ST.sqrts)
+    if not z3.is_rational_value(t):
+        # the same radicand written differently (e.g. the code's np.std and the definition's sum of squares / n) has the same root
+        for (u, su) in known:
+            if _poly_identical(t, u):
+                ST.sqrts.append((t, su))
+                return su
     s = fresh_real('sqrt')
     ST.sqrts.append((t, s))
-    ST.path.assume(z3.And(s >= 0, z3.Implies(t >= 0, s * s == t)))
+    nn = _obviously_nonneg(t)
+    imp = lambda ante, c: c if all(_obviously_nonneg(a) for a in ante) else z3.Implies(z3.And(*[a >= 0 for a in ante]), c)
+    # the defining equation is kept as a separate, tagged assumption: when a query comes back `unknown` the runner retries without the
+    # tagged equations (a weaker hypothesis set, so `unsat` there is still a proof); the laws below then carry the argument
+    defeq = imp([t], s * s == t)
+    ST.path.assume(defeq)
+    if not hasattr(ST.path, 'heavy'):
+        ST.path.heavy = {}            # id of the defining equation -> id of the root symbol
+        ST.path.sqrt_linked = set()   # root symbols that take part in a multiplicative law
+    ST.path.heavy[defeq.get_id()] = s.get_id()
+    ax = [s >= 0, z3.Implies(t > 0, s > 0)]
+    if not z3.is_rational_value(t) and len(known) <= 8:
+        # multiplicative laws among the radicands on this path: sqrt(k*u) = sqrt(k) sqrt(u), sqrt(k*u*v) = sqrt(k) sqrt(u) sqrt(v)
+        # (valid for u, v >= 0, which is part of each law's antecedent)
+        nonconst = [(u, su) for (u, su) in known if not z3.is_rational_value(u)]
+        for (u, su) in nonconst:
+            k = _const_ratio(t, u)
+            if k is not None:
+                ax.append(imp([u], s == _const_sqrt(k) * su))
+                ST.path.sqrt_linked.update([s.get_id(), su.get_id()])
+        for i, (u, su) in enumerate(nonconst):
+            for (v, sv) in nonconst[i:]:
+                k = _const_ratio(t, u * v)
+                if k is not None:
+                    ax.append(imp([u, v], s == _const_sqrt(k) * su * sv))
+                    ST.path.sqrt_linked.update([s.get_id(), su.get_id(), sv.get_id()])
+            for (v, sv) in nonconst:
+                k = _const_ratio(u, t * v)
+                if k is not None:
+                    ax.append(imp([t, v], su == _const_sqrt(k) * s * sv))
+                    ST.path.sqrt_linked.update([s.get_id(), su.get_id(), sv.get_id()])
+    ST.path.assume(z3.And(*ax))
     ST.path.notes.append(('sqrt-arg', t))
     return s
 
